@@ -34,27 +34,23 @@ structure SPush where
   slot : Slot
 deriving DecidableEq, Repr
 
-/-- values pushed unconditionally -/
+/-- values pushed unconditionally (text conversions — `.as_ref()`, `.as_str()`, `.to_owned()`, `&`, `Cow::*` — are dropped
+by the translator) -/
 def slotOfAlways : String → Option Slot
-  | "self.response_type.as_ref()" | "self.response_type" | "self.response_type.as_str()" => some .respType
-  | "self.client_id" | "self.client_id.as_str()" | "self.client_id.as_ref()" => some .clientId
-  | "self.state.secret()" | "self.state.secret().as_str()" => some .state
+  | "self.response_type" => some .respType
+  | "self.client_id" => some .clientId
+  | "self.state.secret()" => some .state
   | _ => none
 
 /-- values pushed inside `if let Some(it) = <scrutinee>` -/
 def slotOfSome : String → String → Option Slot
-  | "self.pkce_challenge", "it.as_str()" => some .challenge
-  | "self.pkce_challenge", "it.method().as_str()" => some .method
-  | "self.redirect_url", "it.as_str()" => some .redirect
+  | "self.pkce_challenge", "it" => some .challenge
+  | "self.pkce_challenge", "it.method()" => some .method
+  | "self.redirect_url", "it" => some .redirect
   | _, _ => none
 
-/-- element texts of the scope join that yield the scope's own string -/
-def scopeElem : String → Bool
-  | "it.to_string()" | "it.as_str()" | "it.as_ref()" | "it.as_ref().as_str()" | "it.to_string().as_str()" => true
-  | _ => false
-
 def isScopeJoin : Val → Bool
-  | .join "self.scopes" e " " => scopeElem e
+  | .join "self.scopes" "it" " " => true
   | _ => false
 
 def interpPush (p : Push) : Option SPush :=
@@ -96,15 +92,14 @@ theorem core_generated (c : Cfg) (st : Bytes) :
     (interpPushes urlFn.pushes).map (denoteAll c st) = some (core c st) := by
   rw [url_pushes]; simp [denote_expected]
 
-/-- spellings of "the configured endpoint URL, cloned" -/
+/-- the configured endpoint URL (cloned) -/
 def isBase : String → Bool
-  | "self.auth_url.url().to_owned()" | "self.auth_url.url().clone()" | "self.auth_url.url().to_owned().clone()" => true
+  | "self.auth_url.url()" => true
   | _ => false
 
-/-- spellings of "the caller's extra parameters, in insertion order" -/
+/-- the caller's extra parameters, in insertion order -/
 def isExtras : String → Bool
-  | "self.extra_params.iter().cloned()" | "self.extra_params" | "self.extra_params.iter()" | "self.extra_params.into_iter()"
-  | "self.extra_params.iter().map(|it|(it.0.as_ref(),it.1.as_ref()))" => true
+  | "self.extra_params" => true
   | _ => false
 
 /-- what one `extend_pairs` appends: the pair vector (`true`) or the caller's extras (`false`) -/
@@ -151,11 +146,10 @@ def emptyVec : String → Bool
   | "Vec::new()" | "vec![]" | "Vec::default()" | "Default::default()" | "Vec::with_capacity(0)" => true
   | _ => false
 
-/-- `p<i>` behind conversions that keep the text -/
+/-- `p<i>` (conversions that keep the text are dropped by the translator) -/
 def paramIndex : String → Option Nat
-  | "p0" | "p0.into()" | "Cow::Owned(p0)" | "(**p0).to_owned().into()" | "p0.to_string().into()" | "p0.as_str().to_owned().into()"
-  | "Cow::Owned((**p0).to_owned())" | "Cow::Owned(p0.to_string())" | "(**p0).clone().into()" | "p0.deref().clone().into()" => some 0
-  | "p1" | "p1.into()" => some 1
+  | "p0" => some 0
+  | "p1" => some 1
   | _ => none
 
 def respTypeOfLit : String → RespType
@@ -192,8 +186,8 @@ def interpEffect : Effect → Option SEff
   | .assign "pkce_challenge" e => if e == "None" then some .pkceNone else if e == "Some(p0)" then some .pkceArg else none
   | .assign "redirect_url" e => if e == "Some(p0)" then some .redirectArg else none
   | .push "scopes" e => (paramIndex e).map .scopePush
-  | .extend "scopes" e => if e == "p0.into_iter().map(Cow::Owned)" || e == "p0" || e == "p0.into_iter().map(|it|Cow::Owned(it))" then some .scopesExtend else none
-  | .push "extra_params" e => if e == "(p0.into(),p1.into())" || e == "(p0,p1)" then some .extraPush else none
+  | .extend "scopes" e => if e == "p0" then some .scopesExtend else none
+  | .push "extra_params" e => if e == "(p0,p1)" then some .extraPush else none
   | _ => none
 
 def setterNamed (n : String) : Option Setter := setters.find? (·.name = n)
@@ -270,10 +264,9 @@ theorem setters_generated (c : Cfg) (op : Op) :
 
 def fieldOf (n : String) : Option String := (ctor.fields.find? (·.1 = n)).map (·.2)
 
-/-- spellings of "the client's default redirect URL, borrowed" -/
+/-- the client's default redirect URL (borrowed or cloned) -/
 def isClientRedirect : String → Bool
-  | "self.redirect_url.as_ref().map(Cow::Borrowed)" | "self.redirect_url.as_ref().map(|it|Cow::Borrowed(it))"
-  | "self.redirect_url.clone().map(Cow::Owned)" | "self.redirect_url.as_ref().cloned().map(Cow::Owned)" => true
+  | "self.redirect_url" => true
   | _ => false
 
 /-- the generated struct literal of `authorize_url_impl` read as "everything empty, the client's id, endpoint and default
@@ -308,11 +301,11 @@ theorem ctor_fields :
 
 /-- **state**: the generator (last parameter) is mentioned exactly once in `authorize_url_impl`, as the call that
 initialises the `state` field; every `Client::authorize_url` hands its own generator through unchanged and takes the
-endpoint from `self.auth_uri()`; `url()` embeds `self.state.secret()` and returns `self.state` (`build_generated`);
+endpoint from `self.auth_uri()` (or the field it returns); `url()` embeds `self.state.secret()` and returns `self.state` (`build_generated`);
 no builder method assigns `state` -/
 theorem state_generated :
     ctor.arity = 2 ∧ ctor.stateFnUses = 1 ∧ fieldOf "state" = some "p1()" ∧
-    entries.all (fun e => e.arity = 1 && e.args == ["self.auth_uri()", "p0"]) = true ∧
+    entries.all (fun e => e.arity = 1 && (e.args == ["self.auth_uri()", "p0"] || e.args == ["self.auth_url", "p0"])) = true ∧
     entries.length = 2 ∧
     setters.all (fun s => s.effects.all fun
       | .assign f _ | .push f _ | .extend f _ => f != "state" && f != "client_id" && f != "auth_url") = true := by
